@@ -90,11 +90,23 @@ def main(argv=None):
         keys = ('evaluations', 'transitions', 'validated', 'states',
                 'outcomes', 'nviolations')
         selftest = all(a[k] == b[k] for k in keys)
-        if not selftest:
-            print('ENGINE-ERROR property=%s: replaying the first task twice '
-                  'gave different observations' % prop)
-            return 2
+        selftest_runs = (a, b)
     merged = runner.run_tasks(mod, tasks, args.tier, seed, args.workers)
+    if selftest is False:
+        # The same task gave different observations when run twice in one
+        # process: the library's behaviour depends on history.  Whatever the
+        # two runs flagged is reported; with nothing flagged anywhere the
+        # run cannot be trusted and is an engine error.
+        for r in selftest_runs:
+            merged.violations.extend(r['violations'])
+            merged.nviolations += r['nviolations']
+        print('NOTE property=%s: replaying the first task twice in one '
+              'process gave different observations (history-dependent '
+              'behaviour of the code under test)' % prop)
+        if not merged.violations and not merged.errors:
+            print('ENGINE-ERROR property=%s: non-reproducible observations '
+                  'and no violation to report' % prop)
+            return 2
     extras = {}
     if hasattr(mod, 'finish'):
         extras = mod.finish(merged, args.tier, seed) or {}
